@@ -159,6 +159,7 @@ func (c18) build(c *mon.Ctx, workload string, i int64) c18Case {
 	}
 	g := gen.NewProg(c.R)
 	g.V2 = true
+	g.Multi = true
 	g.IllTyped = 60
 	g.MaxDepth = 2 + c.R.Intn(2)
 	g.Containers = c.R.Intn(2) == 0
